@@ -40,13 +40,6 @@ SECOND = ["none", "same", "other_schema", "noargs", "other_case", "other_db", "s
 
 
 def gen_cases(tier: str, seed: int):
-    storages = ["memory"] if tier == "quick" else STORAGE
-    for st, prior, db, sc, cd, cs, second in itertools.product(
-        storages, PRIOR, DBS, SCS, (True, False), (True, False), SECOND
-    ):
-        if tier == "quick" and second not in ("none", "other_schema", "other_db", "same_after_drop_schema"):
-            continue
-        yield {"storage": st, "prior": prior, "db": db, "sc": sc, "cd": cd, "cs": cs, "second": second}
     # instances that also carry nop_regexes (connect's own set-up is not a user statement), names with _ and $ next to
     # look-alike objects (DBX1 / SX1 exist, DB_1 / S_1 are asked for)
     for prior in [p for p in PRIOR if p != "other_live"] + ["lookalike"]:  # (the other_live preparation itself uses USE)
@@ -62,6 +55,14 @@ def gen_cases(tier: str, seed: int):
             ["path_fresh", "path_reopen"], PRIOR, [None, "db1"], [None, "s1", "information_schema"], (True, False), (True, False)
         ):
             yield {"storage": st, "prior": prior, "db": db, "sc": sc, "cd": cd, "cs": cs, "second": "none"}
+    # the full product of configurations last: a time budget trims this part only
+    storages = ["memory"] if tier == "quick" else STORAGE
+    for st, prior, db, sc, cd, cs, second in itertools.product(
+        storages, PRIOR, DBS, SCS, (True, False), (True, False), SECOND
+    ):
+        if tier == "quick" and second not in ("none", "other_schema", "other_db", "same_after_drop_schema"):
+            continue
+        yield {"storage": st, "prior": prior, "db": db, "sc": sc, "cd": cd, "cs": cs, "second": second}
 
 
 class World:
